@@ -47,6 +47,11 @@ def _mk_h(which):
         sym = None
         extra = []
         try:
+            if ctx.params.get('second_call'):
+                # an earlier call with the same p (other weights) must not influence this one
+                w0 = e.real('w_prev')
+                (gen.dag_avg_deg(p, k, w0, w0, random_state=seed + 1) if which == 'avg' else gen.dag_full(p, w0, w0, random_state=seed + 1))
+                np.random.LOG[:] = [r for r in np.random.LOG if False]
             if which == 'avg':
                 out = gen.dag_avg_deg(p, k, wmin, wmax, return_ordering=ro, random_state=seed)
             else:
@@ -123,7 +128,8 @@ def _mk_h(which):
                 t = z3.FreshInt('nice')
                 extra.append(v.zterm() * sc == z3.ToReal(t))
                 extra.append(z3.And(t >= -64, t <= 64))
-        inputs = dict(which=which, p=p, k=k, w_min=wmin, w_max=wmax, ordering=ro, seed=seed, rng=rngscript.script(np.random.LOG))
+        inputs = dict(which=which, p=p, k=k, w_min=wmin, w_max=wmax, ordering=ro, seed=seed, rng=rngscript.script(np.random.LOG),
+                      second_call=bool(ctx.params.get('second_call')))
         return PathResult(outcome, cl, inputs=inputs, call='gen', info=dict(which=which, p=p, ordering=ro),
                           diff=(_real, sym, dict(extra=extra, tol=1e-9)), reach=reach)
     return fn
@@ -156,6 +162,12 @@ def _call(inp, scripted=True, seed=None):
         if inp['which'] == 'avg':
             return s.generators.dag_avg_deg(p, float(unj(inp['k'])), wmin, wmax, **kw)
         return s.generators.dag_full(p, wmin, wmax, **kw)
+    if inp.get('second_call'):
+        # the earlier call with the same p (real generator), then the call under test
+        if inp['which'] == 'avg':
+            s.generators.dag_avg_deg(p, float(unj(inp['k'])), 3.0, 3.0, random_state=sd + 1)
+        else:
+            s.generators.dag_full(p, 3.0, 3.0, random_state=sd + 1)
     if scripted:
         with rngscript.scripted(inp.get('rng')):
             return go()
@@ -317,4 +329,8 @@ def obligations(tier):
                                          'dag_avg_deg' if which == 'avg' else 'dag_full', p, ro),
                                      expect=('returned',), reach_expect=tuple(reach), weight=[1, 1, 2, 6, 24, 120][p] * (3 if which == 'avg' else 1),
                                      timeout_ms=120000))
+    for which in ('avg', 'full'):
+        ob.append(Obligation('%s_p3_after_other_call' % which, _mk_h(which), [dict(p=3, ordering=False, second_call=True)],
+                             "%s on 3 nodes after an earlier call with the same p and other weights (no state carried between calls)" % which,
+                             expect=('returned',), weight=20, timeout_ms=120000))
     return ob
